@@ -2625,4 +2625,64 @@ def c01LateMatch : Match :=
                           ⟨⟨3, "C", [("x", .int 3)]⟩, some "c"⟩, ⟨⟨4, "D", []⟩, some "d"⟩]
   ⟨st, capsOf st⟩
 
+/-! ## towards the stack-level re-reading of an enumerated match (steps for `GenuineK` on `deferredOK` patterns) -/
+
+/-- a predicate only looks at the captures of the aliases it mentions -/
+theorem evalPred_congr (q : Pred) (e : Event) (c1 c2 : Caps)
+    (h : ∀ a ∈ q.refs, c1.lookup a = c2.lookup a) : evalPred q e c1 = evalPred q e c2 := by
+  induction q with
+  | cmp f op v => rfl
+  | cmpRef f op a rf =>
+    unfold evalPred
+    rw [h a (by simp [Pred.refs])]
+  | and l r ihl ihr =>
+    unfold evalPred
+    rw [ihl (fun a ha => h a (by simp [Pred.refs, ha])), ihr (fun a ha => h a (by simp [Pred.refs, ha]))]
+  | or l r ihl ihr =>
+    unfold evalPred
+    rw [ihl (fun a ha => h a (by simp [Pred.refs, ha])), ihr (fun a ha => h a (by simp [Pred.refs, ha]))]
+  | not q ih =>
+    unfold evalPred
+    rw [ih (fun a ha => h a (by simpa [Pred.refs] using ha))]
+
+/-- every subsequence is enumerated by `subseqs` -/
+theorem mem_subseqs_of_sublist {α} {l es : List α} (h : es.Sublist l) : es ∈ subseqs l := by
+  induction h with
+  | slnil => simp [subseqs]
+  | cons a _ ih => unfold subseqs; exact List.mem_append.mpr (Or.inr ih)
+  | cons_cons a _ ih => unfold subseqs; exact List.mem_append.mpr (Or.inl (List.mem_map.mpr ⟨_, ih, rfl⟩))
+
+/-- what an alias is bound to depends only on the entries carrying that alias -/
+theorem lookup_capsOf_filter (a : String) (l : List Entry) :
+    (capsOf l).lookup a = (capsOf (l.filter fun en => en.alias == some a)).lookup a := by
+  induction l with
+  | nil => rfl
+  | cons en rest ih =>
+    by_cases h : (en.alias == some a) = true
+    · simp only [List.filter_cons, h, if_true, capsOf, List.lookup_append, ih]
+    · simp only [List.filter_cons, h, Bool.false_eq_true, if_false, capsOf, List.lookup_append, ih]
+      have : en.binding.lookup a = none := by
+        unfold Entry.binding
+        cases hx : en.alias with
+        | none => rfl
+        | some c =>
+          have hca : (a == c) = false := by
+            rw [hx] at h
+            have : c ≠ a := by simpa using h
+            simpa using Ne.symm this
+          simp [List.lookup_cons, hca]
+      rw [this]; simp
+
+/-- entries that all bind the alias `b` do not change what another alias is bound to -/
+theorem lookup_capsOf_skip (b a : String) (hab : a ≠ b) (pre grp post : List Entry)
+    (hg : ∀ en ∈ grp, en.alias = some b) :
+    (capsOf (pre ++ grp ++ post)).lookup a = (capsOf (pre ++ post)).lookup a := by
+  rw [lookup_capsOf_filter a (pre ++ grp ++ post), lookup_capsOf_filter a (pre ++ post)]
+  have : grp.filter (fun en => en.alias == some a) = [] := by
+    apply List.filter_eq_nil_iff.mpr
+    intro en hen
+    rw [hg en hen]
+    simpa using Ne.symm hab
+  simp only [List.filter_append, this, List.append_nil]
+
 end Varpulis.Sase
